@@ -482,6 +482,18 @@ func (c *C18Case) Run() (res stat.Result) {
 					if e1 != nil || e2 != nil || wa.String() != wb.String()+"\n" {
 						return fail("stream outputs %q / %q (%v %v): want exactly one newline of difference", clipB(wa.Bytes()), clipB(wb.Bytes()), e1, e2)
 					}
+					if json.Valid(ob) { // json.Indent inside the stream encoder needs well-formed text (NoValidateJSONMarshaler may be on)
+						wa.Reset()
+						wb.Reset()
+						sa, sb := off.NewEncoder(&wa), on.NewEncoder(&wb)
+						sa.SetIndent("", " ")
+						sb.SetIndent("", " ")
+						e1, e2 = sa.Encode(x), sb.Encode(x)
+						if e1 != nil || e2 != nil || wa.String() != wb.String()+"\n" {
+							return fail("indenting stream outputs %q / %q (%v %v): want exactly one newline of difference", clipB(wa.Bytes()), clipB(wb.Bytes()), e1, e2)
+						}
+						res.Classes = append(res.Classes, "stream-indent-newline")
+					}
 					feature = true
 				}
 			}
@@ -886,6 +898,24 @@ func (c *C18Case) runEntryEnc(x interface{}, cfg sonic.Config, res stat.Result) 
 		}
 		if serr != nil || sb.String() != w {
 			return fail("NewEncoder.Encode wrote %q, %v; want %q", clipB(sb.Bytes()), serr, clipS(w))
+		}
+	}
+	// the same stream encoder with indentation: MarshalIndent plus the newline that NoEncoderNewline removes
+	if werr == nil {
+		var ib, sb2 bytes.Buffer
+		if json.Indent(&ib, want, "p", "  ") == nil {
+			se := api.NewEncoder(&sb2)
+			se.SetIndent("p", "  ")
+			serr2 := se.Encode(x)
+			res.Sub++
+			w := ib.String()
+			if !cfg.NoEncoderNewline {
+				w += "\n"
+			}
+			if serr2 != nil || sb2.String() != w {
+				return fail("NewEncoder.SetIndent.Encode wrote %q, %v; want %q", clipB(sb2.Bytes()), serr2, clipS(w))
+			}
+			res.Classes = append(res.Classes, "entry:stream-indent")
 		}
 	}
 	// the package-level functions are ConfigDefault
